@@ -110,7 +110,7 @@ def main(chk, args):
         for i, c in enumerate(cases):
             for kind in KINDS:
                 b = (i + len(kind)) % 2
-                allc.append(dict(id=f'{i}:{kind}', idx=i, kind=kind, pages=c['history'], base=BASES[b],
+                allc.append(dict(id=f'{i}:{kind}', idx=i, kind=kind, pages=c['history'], base=BASES[b], reuse=(i % 3 == 0),
                                  md=[['x-verif-a', 'v1']] if b == 0 else [], timeout=30 if b == 0 else None))
         for j, hist in enumerate(extra):
             for kind in KINDS:
@@ -135,7 +135,8 @@ def main(chk, args):
                 chk.violation('random:' + tr['kind'] + '/' + tr['mode'], f"raised {tr['error']}", dict(trace=tr))
             continue
         c = cases[int(tr['id'].split(':')[0])]
-        key = f"{tr['kind']}/{tr['mode']}/" + ''.join(f"{p['n']}{'+' if p['more'] else '.'}" for p in tr['history'])
+        again = '/again' if tr['id'].endswith(':again') else ''
+        key = f"{tr['kind']}/{tr['mode']}{again}/" + ''.join(f"{p['n']}{'+' if p['more'] else '.'}" for p in tr['history'])
         chk.case(key, nontrivial=len(c['tokens']) > 1 or len(c['yielded']) > 0)
         diffs = ([f"raised {tr['error']}"] if tr.get('error') else []) + predicted_ok(c, tr)
         if diffs:
